@@ -243,12 +243,58 @@ def toks_of(step, drop_nl=False):
     return t
 
 
+# expressions handed to bloc_parse_expression: the same tokens on one line, with a line end (LF, CRLF) after any one token, before the
+# first, after every token
+EXPR_TOKS = [["1", "+", "2", "*", "3"], ["(", "1", "+", "2", ")", "*", "3"], ['"a"', "+", '"b"'], ["-", "4", "**", "2"], ["strlen", "(", '"abc"', ")", "+", "1"],
+             ["1", "<", "2", "and", "not", "false"], ["tup", "(", "1", ",", '"x"', ")", "@1"], ["1", "==", "1.0"], ["/* c */", "7", "/* d\ne */", "%", "4"],
+             ['"l1\nl2"', "+", '"z"'], ["x", "+", '"w"'], ["x", ".", "count", "(", ")"]]
+
+
+def exprlayout_gen(tier):
+    def gen():
+        n = 0
+        for ti, toks in enumerate(EXPR_TOKS):
+            one = " ".join(toks) + " ;"
+            lays = [("one-line", one), ("leading-LF", "\n" + one), ("all-LF", "\n".join(toks) + "\n;"), ("all-CRLF", "\r\n".join(toks) + "\r\n;\r\n"),
+                    ("trailing-LF", " ".join(toks) + "\n;\n")]
+            for k in range(len(toks)):
+                lays.append(("LF-after-%d" % k, " ".join(toks[:k + 1]) + "\n" + " ".join(toks[k + 1:]) + " ;"))
+                if tier == "thorough" or k % 2 == 0:
+                    lays.append(("CRLF-after-%d" % k, " ".join(toks[:k + 1]) + "\r\n  " + " ".join(toks[k + 1:]) + " ;"))
+            for name, text in lays:
+                ops = ["k.create 0", "k.pexe 0 0 %s 0" % hx('x = "hello";'), "k.exec 0", "k.freeexe 0",
+                       "k.pexpr 0 0 %s" % hx(one), "k.etype 0 0", "k.eval 0 0 0", "k.pexpr 0 1 %s" % hx(text)]
+                ops += ["k.etype 0 1", "k.eval 0 1 1", "k.end"]
+                yield Case("xl%d" % n, ops, {"kind": "exprlayout", "expr": one, "layout": name, "text": text})
+                n += 1
+    return gen
+
+
+def check_exprlayout(case, res, vs):
+    m = case.meta
+    st = res["steps"]
+    if st[4].get("ptr") != 1:
+        vs.append(Violation("harness:exprlayout", "the one-line expression %r is refused: %s" % (m["expr"], st[4]), case))
+        return vs, True
+    ref = (st[5].get("major"), st[5].get("ndim"), st[6].get("val", {}).get("dump"))
+    if st[7].get("ptr") != 1:
+        got = ("refused", st[7].get("strerror"))
+    else:
+        got = (st[8].get("major"), st[8].get("ndim"), st[9].get("val", {}).get("dump"))
+    if got != ref:
+        vs.append(Violation("expression-layout:%s" % m["layout"].split("-after-")[0], "bloc_parse_expression(%r) gives %s, the same tokens on one line (%r) give %s" % (
+            m["text"], got, m["expr"], ref), case))
+    return vs, True
+
+
 def check(case, res):
     vs = generic_safety(case, res)
     if res.get("st") != "done":
         return vs, True
     m = case.meta
     st = res["steps"]
+    if m["kind"] == "exprlayout":
+        return check_exprlayout(case, res, vs)
     ref_t, var_t = st[1], st[3]
     ref_p, ref_u, ref_x, ref_o = st[5], st[6], st[7], st[8]
     var_p, var_u, var_x, var_o = st[10], st[11], st[12], st[13]
@@ -408,6 +454,7 @@ def run(tier):
     total = Result()
     total.merge(explore("%s-%s-fragments" % (PROP, tier), frag_gen(tier), check, chunk=200, deadline=deadline))
     total.merge(explore("%s-%s-longlines" % (PROP, tier), long_gen(tier), check, chunk=50, deadline=deadline))
+    total.merge(explore("%s-%s-expression-layouts" % (PROP, tier), exprlayout_gen(tier), check, chunk=50, deadline=deadline))
     total.merge(cli_pass(tier))
     rule = ("for %d texts containing every multi-character lexeme: 0 splits (reference), every single split position, every pair of split positions%s, fixed "
             "fragment sizes 1..16, 1022, 1023, 1024, 2048 through a fragmenting StreamReader; 23 lexeme kinds at %s alignments across byte 1023%s of a long "
